@@ -86,6 +86,25 @@ pub proof fn lemma_table_map(s: Seq<Expr>)
     }
 }
 
+/// the instance of `value.try_into()` / `width.try_into()` for the monomorphic signature under which bit_vec_val is verified
+/// (`u32 -> u128` and `u32 -> u32` are the std widening / identity conversions and cannot fail)
+#[verifier::external_body]
+pub fn try_into_u128(v: u32) -> (r: Result<u128, ()>)
+    ensures r == Ok::<u128, ()>(v as u128),
+{ unimplemented!() }
+#[verifier::external_body]
+pub fn try_into_width(w: WidthInt) -> (r: Result<WidthInt, ()>)
+    ensures r == Ok::<WidthInt, ()>(w),
+{ unimplemented!() }
+
+impl BitVecValueIndex {
+    /// baa: plain constructor of the (index, width) handle — it does NOT intern anything
+    #[verifier::external_body]
+    pub fn new(index: u32, width: WidthInt) -> (r: BitVecValueIndex)
+        ensures r.index == index, r.width == width,
+    { unimplemented!() }
+}
+
 //@@CONTEXT-STRUCT@@
 
 pub open spec fn bv_of(t: Type) -> Option<WidthInt> {
